@@ -168,6 +168,45 @@ def set_aside_names(fn, par):
     return out
 
 
+def unshadowed_read_names(fn):
+    """Names with a Load occurrence in the own block of `fn` (comprehensions included, nested def / lambda / class
+    bodies not) that is not lexically hidden by an iteration target of an enclosing comprehension: for these,
+    'comprehension targets aside' does not apply — the occurrence refers to the function's (or an outer) variable."""
+    out = set()
+
+    def visit(node, hidden):
+        if isinstance(node, (ast.FunctionDef, ast.AsyncFunctionDef)):
+            for d in node.decorator_list + node.args.defaults + [k for k in node.args.kw_defaults if k is not None]:
+                visit(d, hidden)
+            return
+        if isinstance(node, ast.Lambda):
+            for d in node.args.defaults + [k for k in node.args.kw_defaults if k is not None]:
+                visit(d, hidden)
+            return
+        if isinstance(node, ast.ClassDef):
+            for d in node.decorator_list + node.bases + [k.value for k in node.keywords]:
+                visit(d, hidden)
+            return
+        if isinstance(node, COMP_NODES):
+            inner = hidden | comp_target_names(node)
+            for k, g in enumerate(node.generators):
+                visit(g.iter, hidden if k == 0 else inner)
+                for c in g.ifs:
+                    visit(c, inner)
+            for f in ('elt', 'key', 'value'):
+                if hasattr(node, f):
+                    visit(getattr(node, f), inner)
+            return
+        if isinstance(node, ast.Name) and isinstance(node.ctx, ast.Load) and node.id not in hidden:
+            out.add(node.id)
+        for c in ast.iter_child_nodes(node):
+            visit(c, hidden)
+    body = fn.body if isinstance(fn.body, list) else [fn.body]
+    for b in body:
+        visit(b, frozenset())
+    return out
+
+
 def simple_names(qns):
     return {q.qn[0] for q in qns if not q.is_composite() and isinstance(q.qn[0], str)}
 
@@ -212,7 +251,7 @@ def impl_classes(impl):
         out.append({'node': fn, 'id': impl.ser.id_of(fn), 'name': getattr(fn, 'name', 'lambda'), 'lineno': fn.lineno,
                     'params': simple_names(a.params.keys()), 'bound': bound, 'globals': gl, 'nonlocals': nl,
                     'locals': bound - gl - nl, 'free_vars': free_vars, 'frees': frees,
-                    'aside': set_aside_names(fn, par)})
+                    'aside': set_aside_names(fn, par), 'unshadowed': unshadowed_read_names(fn)})
     return out
 
 
